@@ -134,6 +134,7 @@ class World(object):
         from . import seams
         import_repo()
         self.reg = seams.Registries()
+        self.modstate = seams.ModuleState()
         self.clock = seams.SimClock()
         self.clock.install()
         self.uuid = seams.SimUUID(self.plan.get('uuid_seed', 1))
@@ -153,6 +154,12 @@ class World(object):
             self.clock.uninstall()
             self.residue = self.reg.diff()
             self.reg.restore()
+            leaked = [x for x in self.modstate.restore() if not x.startswith(('stix2.v20.OBJ_MAP', 'stix2.v21.OBJ_MAP', 'stix2.v20.EXT_MAP', 'stix2.v21.EXT_MAP',
+                                                                              'stix2.v20.common.OBJ_MAP', 'stix2.v21.common.OBJ_MAP',
+                                                                              'stix2.registry.', 'stix2.v20.observables.', 'stix2.v21.observables.'))
+                      or 'MAP' not in x]
+            for x in leaked:
+                self.stats['module_state_restored:' + x] += 1
         return False
 
     # -- logging / stats ---------------------------------------------------
